@@ -108,8 +108,8 @@ func (b *Batch) Run() int {
 			if o.Verdict == "stall" {
 				o = b.stallProtocol(c, o)
 			}
-			b.Stats.Add(c, o)
 			class := b.Judge(c, o)
+			b.Stats.Add(c, o)
 			mu.Lock()
 			defer mu.Unlock()
 			if o.Verdict == "infra" && class == "" {
